@@ -130,6 +130,9 @@ type c08 struct {
 	prevIDs      []types.FileContractID // contracts renewed away from
 	prev         []rhp.ContractRevision // ... with their last revision
 	active       *rhp.ContractRevision  // the current contract while an old one is selected
+	staleRev     *types.V2FileContract  // an earlier doubly signed revision of the current contract (requests built on a stale base)
+	afterChain   string                 // the running step follows this chain event
+	formedAt     uint64                 // height at which the current contract confirmed
 	stale        string                 // the host's current prices differ by this factor from the signed table in use
 	afterFault   string                 // the running step follows a store fault of this label
 	afterRefusal string                 // the running step follows a refused request of this label
@@ -194,6 +197,7 @@ func (c *c08) newContractFor(duration uint64) error {
 	c.model = nil
 	c.oldRevs, c.oldSigs, c.oldChal, c.oldRoots, c.oldFund = nil, nil, nil, nil, nil
 	c.oldRepl = map[bool]*proto4.RPCReplenishAccountsRequest{}
+	c.staleRev, c.formedAt = nil, c.lab.CM.Tip().Height
 	c.r.Count("contracts_formed", 1)
 	return nil
 }
@@ -205,6 +209,9 @@ type c08Result struct {
 	err     error
 	success bool
 	harness error // the harness could not build the request at all
+	// fund: the deposits as sent and the balances the host answered
+	deposits []proto4.AccountDeposit
+	reported []types.Currency
 }
 
 func isInc(err error) bool {
@@ -436,6 +443,10 @@ func (c *c08) freshAccounts(n int) []proto4.Account {
 func (c *c08) accountsOf(st c08Step) []proto4.Account {
 	var out []proto4.Account
 	for _, i := range st.Accounts {
+		if i >= len(c.accts) && len(c.fresh) > 0 {
+			out = append(out, c.fresh[(i-len(c.accts))%len(c.fresh)]) // never used before this step
+			continue
+		}
 		out = append(out, c.accts[i%len(c.accts)])
 	}
 	return out
@@ -467,6 +478,9 @@ func (c *c08) do(st c08Step) (res c08Result) {
 	contract := c.contract
 	if bad == "unknown-contract" {
 		contract.ID = c.unknownID
+	}
+	if bad == "built-on-stale-revision" && c.staleRev != nil {
+		contract.Revision = *c.staleRev // correctly signed, but for a revision the host has moved past
 	}
 	var chal types.Signature
 	done := func(stage rhplab.Stage, err error) {
@@ -649,6 +663,7 @@ func (c *c08) do(st c08Step) (res c08Result) {
 		r := c.raw.Fund(c.cs, call)
 		res.err, res.success = r.Err, r.Err == nil
 		if res.success {
+			res.deposits, res.reported = slices.Clone(sentFund.Deposits), slices.Clone(r.Resp.Balances)
 			cp := sentFund
 			c.oldFund = &cp
 			c.oldSigs = append(c.oldSigs, r.Revision.RenterSignature)
@@ -885,10 +900,13 @@ func (c *c08) step(st c08Step) error {
 	if st.Fault && st.Bad == "" {
 		return c.faultStep(st)
 	}
+	if st.RPC == "publish" || st.RPC == "reorg" {
+		return c.chainStep(st)
+	}
 	if err := c.quiesce(); err != nil {
 		return err
 	}
-	if needsFresh(st.Bad) {
+	if needsFresh(st.Bad) || slices.ContainsFunc(st.Accounts, func(i int) bool { return i >= len(c.accts) }) {
 		c.fresh = c.freshAccounts(3)
 	}
 	panics0 := c.lab.HostPanics()
@@ -1047,10 +1065,17 @@ func (c *c08) step(st c08Step) error {
 		}
 	} else {
 		c.r.Count("good_requests_"+st.RPC, 1)
+		if st.RPC == "fund" && res.success {
+			c.fundOracle(st, res, pre, post)
+		}
 		if n := c.lab.HostPanics() - panics0; n > 0 {
 			c.r.Count("handler_panics_on_good_requests", n)
 		}
 		switch {
+		case !res.success && c.afterChain != "":
+			c.report("rpc-refused-after-chain-event:"+c.afterChain, "after the chain confirmed or un-confirmed a revision of the contract, a well-formed "+st.RPC+" built on the host's true latest revision is not served: "+errText(res.err), nil, nil)
+		case res.success && c.afterChain != "":
+			c.r.Count("served_after_chain_event", 1)
 		case !res.success && c.afterRefusal != "":
 			c.report("rpc-refused-after-refusal:"+c.afterRefusal, "after a refused request a well-formed "+st.RPC+" on the same contract is not served: "+errText(res.err), nil, nil)
 		case res.success && c.afterRefusal != "":
@@ -1074,6 +1099,9 @@ func (c *c08) step(st c08Step) error {
 	}
 	c.afterFault = ""
 	c.afterRefusal = ""
+	if st.Bad == "" {
+		c.afterChain = ""
+	}
 	// after every commit: host state is the committed revision, and consensus accepts it
 	okCommits := 0
 	for _, ev := range commits {
@@ -1119,6 +1147,7 @@ func (c *c08) step(st c08Step) error {
 					c.r.Count("successor_roots_checked", 1)
 				}
 			}
+			c.staleRev, c.formedAt = nil, c.lab.CM.Tip().Height
 			c.prevIDs = append(c.prevIDs, c.contract.ID)
 			c.prev = append(c.prev, rhp.ContractRevision{ID: c.contract.ID, Revision: pre.State.Revision})
 			c.contract = rhp.ContractRevision{ID: newID, Revision: last.Revision}
@@ -1151,6 +1180,56 @@ func (c *c08) step(st c08Step) error {
 	c.lab.Mux.Forget(c.lab.Mux.Streams())
 	c.lab.Log.Trim(c.aud.seq)
 	return nil
+}
+
+// fundOracle: a fund RPC lowers the renter payout by exactly the deposited
+// total, and exactly that total arrives on the accounts - per account the sum
+// of all deposits naming it, also when one request names an account several
+// times; the balances the host answers are the real ones.
+func (c *c08) fundOracle(st c08Step, res c08Result, pre, post snap) {
+	var total types.Currency
+	per := map[proto4.Account]types.Currency{}
+	last := map[proto4.Account]types.Currency{}
+	repeated := false
+	for i, d := range res.deposits {
+		total = total.Add(d.Amount)
+		if _, seen := per[d.Account]; seen {
+			repeated = true
+		}
+		per[d.Account] = per[d.Account].Add(d.Amount)
+		if i < len(res.reported) {
+			last[d.Account] = res.reported[i]
+		}
+	}
+	detail := map[string]any{"deposits": res.deposits, "reported": res.reported}
+	if paid := pre.State.Revision.RenterOutput.Value.Sub(post.State.Revision.RenterOutput.Value); !paid.Equals(total) {
+		c.report("fund-payout-vs-deposits", fmt.Sprintf("the renter payout fell by %v, the deposits sum to %v", paid, total), nil, detail)
+	}
+	var grew types.Currency
+	ok := len(res.reported) == len(res.deposits)
+	for i, a := range c.accounts {
+		d := post.Acc[i].Sub(min64(pre.Acc[i], post.Acc[i]))
+		grew = grew.Add(d)
+		if want := per[a]; !d.Equals(want) || post.Acc[i].Cmp(pre.Acc[i]) < 0 {
+			ok = false
+			detail["account"], detail["credited"], detail["deposited"] = a, d, want
+		}
+		if rep, named := last[a]; named && !rep.Equals(post.Acc[i]) {
+			c.report("fund-response-balances-wrong", fmt.Sprintf("the host answered balance %v for an account that holds %v", rep, post.Acc[i]), nil, detail)
+		}
+	}
+	if !ok || !grew.Equals(total) {
+		sig := "fund-credits-differ-from-deposits"
+		if repeated {
+			sig += ":repeated-account"
+		}
+		c.report(sig, fmt.Sprintf("accounts grew by %v in total, the deposits (and the renter's payment) sum to %v", grew, total), nil, detail)
+	} else {
+		c.r.Count("fund_credits_checked", 1)
+		if repeated {
+			c.r.Count("fund_requests_with_repeated_account", 1)
+		}
+	}
 }
 
 // locksReleased reports a violation if a contract lock is still held at the
@@ -1317,9 +1396,9 @@ func (c *c08) genGood(rng *rand.Rand, rpc string) c08Step {
 	}
 	switch rpc {
 	case "fund":
-		k := 1 + rng.IntN(3)
+		k := 1 + rng.IntN(4)
 		for i := 0; i < k; i++ {
-			st.Accounts = append(st.Accounts, rng.IntN(4))
+			st.Accounts = append(st.Accounts, rng.IntN(6)) // 0-3 standing accounts, 4-5 fresh ones; repeats happen
 			st.Amounts = append(st.Amounts, 1+rng.Uint64N(5_000_000))
 		}
 	case "replenish-accounts", "replenish-pools":
@@ -1412,6 +1491,20 @@ func (c *c08) runSequential(nsteps int, table bool) error {
 			if err := c.step(c.genGood(c.rng, "fund")); err != nil {
 				return err
 			}
+		}
+	}
+	// one fund request naming the same account several times, at every pair of
+	// positions, mixed with accounts that never existed before
+	if table {
+		for _, accs := range [][]int{{0, 0}, {0, 1, 0}, {1, 0, 0}, {0, 0, 1}, {0, 0, 0}, {0, 1, 2, 0}, {0, 1, 0, 1}, {4, 0, 4}, {0, 4, 5, 4}, {4, 4}, {4, 5, 6, 4, 5}, {2, 4, 2, 4, 2}} {
+			amounts := make([]uint64, len(accs))
+			for i := range amounts {
+				amounts[i] = 2 + uint64(i) + c.rng.Uint64N(1000)
+			}
+			if err := c.step(c08Step{RPC: "fund", Accounts: accs, Amounts: amounts}); err != nil {
+				return err
+			}
+			c.r.Distinct(fmt.Sprintf("fund-shape:%v", accs))
 		}
 	}
 	// store faults: every RPC kind with its persisting call failing
@@ -1618,6 +1711,12 @@ func runC08(r *mon.Run, replay string) {
 	r.Floor("formations_confirmed", 2)
 	r.Floor("contender_rounds", 12)
 	r.Floor("store_faults_injected", 40)
+	r.Floor("older_revisions_confirmed_on_chain", 25)
+	r.Floor("reorgs_unconfirming_a_revision", 4)
+	r.Floor("served_after_chain_event", 40)
+	r.Floor("stale_based_requests_refused", 25)
+	r.Floor("fund_requests_with_repeated_account", 40)
+	r.Floor("fund_credits_checked", 150)
 	r.Floor("served_after_refusal", 400)
 	r.Floor("settings_changes", 60)
 	r.Floor("commits_priced_by_older_signed_table", 150)
@@ -1662,6 +1761,13 @@ func runC08(r *mon.Run, replay string) {
 		defer wg.Done()
 		guardRun(r, "C08 contenders", func() error { return c08Contenders(r) })
 	}()
+	for w := 0; w < 2; w++ {
+		wg.Add(1)
+		go func(w int) {
+			defer wg.Done()
+			guardRun(r, fmt.Sprintf("C08 chain %d", w), func() error { return c08Chain(r, w) })
+		}(w)
+	}
 	for _, k := range []int{2, 3, 4, 8} {
 		wg.Add(1)
 		go func(k int) {
